@@ -187,7 +187,9 @@ class Contract:
         thorough_only=False,
         ghost_returns=None,
         ghost_witness=None,
+        stubs=None,
     ):
+        self.stubs = dict(stubs or {})  # callee key -> name of a side-car function standing in for it (trusted)
         self.ghost_returns = dict(ghost_returns or {})
         self.ghost_witness = dict(ghost_witness or {})
         self.forbid_reads = list(forbid_reads)
